@@ -1,124 +1,11 @@
 #!/usr/bin/env python3
-"""tools/neutral_variants.py <kind> <outdir>  -- write a behaviour-preserving variant of /repo's elftools+scripts to <outdir>.
-
-Used to test the checks for false alarms (DESIGN.md §8.7): every check must stay silent on these.
-kinds:
-  unparse   every module re-emitted by ast.unparse (formatting, comments, parenthesisation, string quoting normalised)
-  rename    every function-local variable (not parameters, not globals) renamed  x -> x_r  consistently
-  reorder   `a == b` comparisons of a name/subscript with a constant flipped to `b == a` is NOT done (changes nothing we
-            test); instead: if/else with a negated test is not generated either -- kept minimal on purpose
-  docstrip  docstrings removed, `pass` inserted where a body would become empty
-"""
-import ast
-import os
-import shutil
-import sys
-import builtins
-
-
-def local_names(fn):
-    params = set(a.arg for a in fn.args.args + fn.args.kwonlyargs + fn.args.posonlyargs)
-    if fn.args.vararg:
-        params.add(fn.args.vararg.arg)
-    if fn.args.kwarg:
-        params.add(fn.args.kwarg.arg)
-    declared = set()
-    stores = set()
-    nested_params = set()
-    for n in ast.walk(fn):
-        if isinstance(n, (ast.Global, ast.Nonlocal)):
-            declared |= set(n.names)
-        elif isinstance(n, ast.Name) and isinstance(n.ctx, (ast.Store, ast.Del)):
-            stores.add(n.id)
-        elif isinstance(n, (ast.FunctionDef, ast.Lambda)) and n is not fn:
-            a = n.args
-            nested_params |= set(x.arg for x in a.args + a.kwonlyargs + a.posonlyargs)
-            if isinstance(n, ast.FunctionDef):
-                stores.discard(n.name)
-        elif isinstance(n, ast.ExceptHandler) and n.name:
-            pass
-    return stores - params - declared - nested_params - set(dir(builtins))
-
-
-class Renamer(ast.NodeTransformer):
-    def visit_FunctionDef(self, fn):
-        names = local_names(fn)
-        # do not descend with a second renaming into nested defs: one consistent map for the whole subtree
-        for n in ast.walk(fn):
-            if isinstance(n, ast.Name) and n.id in names:
-                n.id = n.id + '_r'
-        # nested functions: their own locals were renamed by the walk above only if they collide; run on them too
-        for i, st in enumerate(fn.body):
-            pass
-        return fn
-
-
-class AugExpand(ast.NodeTransformer):
-    """x += e  ->  x = x + e   (names only)"""
-    def visit_AugAssign(self, n):
-        self.generic_visit(n)
-        if isinstance(n.target, ast.Name):
-            return ast.Assign(targets=[ast.Name(id=n.target.id, ctx=ast.Store())],
-                              value=ast.BinOp(left=ast.Name(id=n.target.id, ctx=ast.Load()), op=n.op, right=n.value), lineno=n.lineno)
-        return n
-
-
-class IfInvert(ast.NodeTransformer):
-    """if c: A else: B  ->  if not c: B else: A   (plain two-armed ifs whose else is not an elif chain)"""
-    def visit_If(self, n):
-        self.generic_visit(n)
-        if n.orelse and not (len(n.orelse) == 1 and isinstance(n.orelse[0], ast.If)):
-            return ast.If(test=ast.UnaryOp(op=ast.Not(), operand=n.test), body=n.orelse, orelse=n.body, lineno=n.lineno)
-        return n
-
-
-class CmpFlip(ast.NodeTransformer):
-    """a < b -> b > a ; a == b -> b == a   (single comparisons)"""
-    FLIP = {ast.Lt: ast.Gt, ast.Gt: ast.Lt, ast.LtE: ast.GtE, ast.GtE: ast.LtE, ast.Eq: ast.Eq, ast.NotEq: ast.NotEq}
-
-    def visit_Compare(self, n):
-        self.generic_visit(n)
-        if len(n.ops) == 1 and type(n.ops[0]) in self.FLIP:
-            return ast.Compare(left=n.comparators[0], ops=[self.FLIP[type(n.ops[0])]()], comparators=[n.left])
-        return n
-
-
-class ExtractLocal(ast.NodeTransformer):
-    """return <expr>  ->  result__ = <expr>; return result__     (single new single-assignment local per return)"""
-    def __init__(self):
-        self.k = 0
-
-    def _block(self, stmts):
-        out = []
-        for st in stmts:
-            if isinstance(st, ast.Return) and st.value is not None and not isinstance(st.value, (ast.Name, ast.Constant)):
-                self.k += 1
-                nm = 'result__%d' % self.k
-                out.append(ast.Assign(targets=[ast.Name(id=nm, ctx=ast.Store())], value=st.value, lineno=st.lineno))
-                out.append(ast.Return(value=ast.Name(id=nm, ctx=ast.Load()), lineno=st.lineno))
-            else:
-                out.append(st)
-        return out
-
-    def generic_visit(self, node):
-        super().generic_visit(node)
-        for fld in ('body', 'orelse', 'finalbody'):
-            b = getattr(node, fld, None)
-            if isinstance(b, list) and b and isinstance(b[0], ast.stmt):
-                setattr(node, fld, self._block(b))
-        return node
-
-
-class DocStrip(ast.NodeTransformer):
-    def _strip(self, node):
-        self.generic_visit(node)
-        b = node.body
-        if b and isinstance(b[0], ast.Expr) and isinstance(b[0].value, ast.Constant) and isinstance(b[0].value.value, str):
-            node.body = b[1:] or [ast.Pass()]
-        return node
-    visit_FunctionDef = _strip
-    visit_ClassDef = _strip
-    visit_Module = _strip
+"""tools/neutral_variants.py <kind> <outdir> [src_root] -- write a behaviour-preserving variant of the repository's elftools+scripts
+to <outdir> (kinds: see sa/neutral.py KINDS).  The same variants are applied in memory by the thorough tier (sa/selfval.py)."""
+import os, shutil, sys
+V = os.path.dirname(os.path.dirname(os.path.abspath(__file__)))
+sys.path.insert(0, V)
+from sa import neutral
+from sa.model import read_sources
 
 
 def main():
@@ -129,43 +16,10 @@ def main():
     os.makedirs(out)
     for d in ('elftools', 'scripts'):
         shutil.copytree(os.path.join(src_root, d), os.path.join(out, d))
-    n = 0
-    for root, dirs, files in os.walk(out):
-        for f in files:
-            if not f.endswith('.py'):
-                continue
-            p = os.path.join(root, f)
-            try:
-                t = ast.parse(open(p).read())
-            except SyntaxError:
-                continue
-            if kind == 'rename':
-                # top-level functions and methods only (nested defs share the map of their outermost function)
-                for node in t.body:
-                    if isinstance(node, ast.FunctionDef):
-                        Renamer().visit_FunctionDef(node)
-                    elif isinstance(node, ast.ClassDef):
-                        for m in node.body:
-                            if isinstance(m, ast.FunctionDef):
-                                Renamer().visit_FunctionDef(m)
-            elif kind == 'docstrip':
-                t = DocStrip().visit(t)
-            elif kind == 'augexpand':
-                t = AugExpand().visit(t)
-            elif kind == 'ifinvert':
-                t = IfInvert().visit(t)
-            elif kind == 'cmpflip':
-                t = CmpFlip().visit(t)
-            elif kind == 'extract':
-                t = ExtractLocal().visit(t)
-            elif kind == 'unparse':
-                pass
-            else:
-                raise SystemExit('unknown kind')
-            ast.fix_missing_locations(t)
-            open(p, 'w').write(ast.unparse(t) + '\n')
-            n += 1
-    print('%s: %d files written to %s' % (kind, n, out))
+    ov = neutral.variant_sources(kind, read_sources(src_root))
+    for rel, text in ov.items():
+        open(os.path.join(out, rel), 'w').write(text)
+    print('%s: %d files written to %s' % (kind, len(ov), out))
 
 
 if __name__ == '__main__':
